@@ -8,7 +8,14 @@ SPEC = {
              # the same with a stalling consumer: the message queue fills, publishes are dropped, then the consumer recovers —
              # whatever is published afterwards must again be the solo JSON of one datagram (counts depend on the stall: no model comparison)
              {"kind": "pipeline", "label": "pipeline-stall", "seed_offset": 47, "quick": 24, "thorough": 800, "model": False,
-              "runner": {"pkg": "./vflow", "test": "TestVerifPipeline", "race": False}, "env": {"VERIF_PIPE_STALL": "1"}}],
+              "runner": {"pkg": "./vflow", "test": "TestVerifPipeline", "race": False}, "env": {"VERIF_PIPE_STALL": "1"}},
+             # "lines received by the message-queue sink": the payloads (JSON text with printf verbs, stray '%', quotes, binary octets,
+             # multi-kilobyte) handed to the real raw-socket producer must arrive at a real sink byte for byte, one per line; to the
+             # kafka producer's Input() unchanged (seed C05-f: the payload used as a format string)
+             {"kind": "producer", "label": "sink-lines", "seed_offset": 91, "quick": 60, "thorough": 6000,
+              "runner": {"pkg": "./producer", "test": "TestVerifRawSocket", "race": False, "timeout": "30m"}},
+             {"kind": "producerk", "label": "sink-values", "seed_offset": 92, "quick": 60, "thorough": 6000,
+              "runner": {"pkg": "./producer", "test": "TestVerifSarama", "race": False, "timeout": "30m"}}],
     "rule": "json: IPFIX / NetFlow v9 messages built directly from typed values (every Interpret result kind x content "
             "class: plain / quotes+backslashes / controls / HTML / multi-byte and invalid UTF-8 / random octets; NaN, +-Inf, "
             "64-bit extremes; IPv4, IPv6, v4-mapped and odd-length addresses), marshalled by the real JSONMarshal, compared "
